@@ -43,6 +43,9 @@ def handler_cfg(draw, metrics):
     """'metrics' holds the effective value of each scenario; 'via_default' says, per metric, which
     of them the constructor receives through default_result instead of its own argument."""
     cfg = {"std": draw(st.sampled_from(RES)), "metrics": {m: [draw(st.sampled_from(RES)) for _ in range(4)] for m in metrics}}
+    if draw(st.integers(0, 7)) == 0:
+        # the constructor's own per-metric table with another empty-list value (all five metrics, like the default)
+        return {"std": cfg["std"], "metrics": {m: list(v) for m, v in lib.DEFAULT_HANDLER["metrics"].items()}}
     via = {}
     for m in metrics:
         if draw(st.integers(0, 2)) == 0:
